@@ -4,6 +4,7 @@ import (
 	"encoding/json"
 	"fmt"
 	"sort"
+	"strings"
 	"testing"
 
 	"verifharness/h"
@@ -186,6 +187,9 @@ func runC10(c *C10Case) error {
 		res, err := cl.QueryLeader(i%c.Conf.Leaders, q.SQL(), h.QueryOpts{Mem: true})
 		if err != nil && h.IsInconclusive(err) {
 			return err
+		}
+		if err != nil && strings.Contains(err.Error(), "missing partitions") {
+			return fmt.Errorf("%w: %v", h.ErrInconclusive, err)
 		}
 		if err == nil && res.Stats != nil && (res.Stats.NumSuccessfulPartitions != c.Conf.Partitions || len(res.Stats.MissingPartitions) > 0) {
 			return fmt.Errorf("%w: partitions not all successful: %+v", h.ErrInconclusive, res.Stats)
